@@ -48,12 +48,20 @@ class MacroParser:
             return
         self.vidx = {v["name"]: v["idx"] for v in self.tt["variants"]}
         pfields = pa["variants"][0]["fields"]
-        self.tok_field = [i for i, f in enumerate(pfields) if "proc_macro2::TokenTree" in f["ty"]]
+        self.tok_field = [i for i, f in enumerate(pfields) if "proc_macro2::TokenTree" in f["ty"] and "Option<" not in f["ty"]]
         self.idx_field = [i for i, f in enumerate(pfields) if f["ty"] == "usize"]
-        if len(self.tok_field) != 1 or len(self.idx_field) != 1 or len(pfields) != 2:
-            self.why = "parser::Parser { tokens, index: usize } (fields %s)" % [f["ty"] for f in pfields]
+        # the other shape: a token iterator plus one token of lookahead
+        self.iter_field = [i for i, f in enumerate(pfields) if f["ty"].endswith("token_stream::IntoIter")]
+        self.peek_field = [i for i, f in enumerate(pfields) if f["ty"].startswith("std::option::Option<proc_macro2::TokenTree")]
+        self.shape = None
+        if len(self.tok_field) == 1 and len(self.idx_field) == 1 and len(pfields) == 2:
+            self.shape = "indexed"
+            self.tok_is_vec = pfields[self.tok_field[0]]["ty"].startswith("std::vec::Vec<")
+        elif len(self.iter_field) == 1 and len(self.peek_field) == 1 and len(pfields) == 2:
+            self.shape = "lookahead"
+        if self.shape is None:
+            self.why = "parser::Parser { tokens, index } or { token iterator, lookahead } (fields %s)" % [f["ty"] for f in pfields]
             return
-        self.tok_is_vec = pfields[self.tok_field[0]]["ty"].startswith("std::vec::Vec<")
         self.spv = {v["name"]: Adt("proc_macro2::Spacing", v["idx"], [], v["name"]) for v in self.sp["variants"]}
         self.leaf = {"parser::string_literal"}
         self.ok = True
@@ -68,9 +76,27 @@ class MacroParser:
     def parser_value(self, toks):
         fs = [None, None]
         store = sim.Tup(list(toks))
+        if self.shape == "lookahead":
+            # as Parser::new leaves it: the first token loaded into the lookahead slot
+            fs[self.iter_field[0]] = Adt("sim::SliceIter", 0, [store, min(1, len(toks)), "by-value"])
+            fs[self.peek_field[0]] = Adt("std::option::Option", 1, [toks[0]]) if toks else Adt("std::option::Option", 0, [])
+            return Adt("parser::Parser", 0, fs)
         fs[self.tok_field[0]] = Adt("sim::Vec", 0, [store]) if self.tok_is_vec else sim.Ref([store], 0, ())
         fs[self.idx_field[0]] = 0
         return Adt("parser::Parser", 0, fs)
+
+    def cursor(self, S, pvv, path):
+        """How many tokens the parser has consumed."""
+        if not (isinstance(pvv, Adt) and pvv.adt == "parser::Parser"):
+            return None
+        if self.shape == "indexed":
+            at = pvv.fields[self.idx_field[0]]
+            return at if isinstance(at, int) else None
+        it = S._deref(pvv.fields[self.iter_field[0]], path)
+        pk = S._deref(pvv.fields[self.peek_field[0]], path)
+        if isinstance(it, Adt) and it.adt == "sim::SliceIter" and isinstance(pk, Adt) and pk.adt.endswith("Option"):
+            return it.fields[1] - (1 if pk.variant == 1 else 0)
+        return None
 
     def hook(self, S, fn, bb, t, args, path):
         p = t["callee"].get("path", "")
@@ -99,8 +125,7 @@ class MacroParser:
                         outs.add(("rejected", None))
                         continue
                     mine, _ = S._caller_env(cell, pth, 0)
-                    pvv = mine[0]
-                    at = pvv.fields[self.idx_field[0]] if isinstance(pvv, Adt) and pvv.adt == "parser::Parser" else None
+                    at = self.cursor(S, mine[0], pth)
                     v = S._deref(pth.ret.fields[0], pth)
                     kind = (v.vname or str(v.variant)) if isinstance(v, Adt) else "?value"
                     outs.add((kind, at if isinstance(at, int) else "?index"))
@@ -223,8 +248,7 @@ def list_dot(ctx, mp):
                     if new_fn is not None and p == new_fn.path:
                         return ("value", mp.parser_value(toks))
                     if p == parse_fn.path:
-                        pv = S._deref(args[0], path)
-                        at = pv.fields[mp.idx_field[0]] if isinstance(pv, Adt) and pv.adt == "parser::Parser" else None
+                        at = mp.cursor(S, S._deref(args[0], path), path)
                         return ("stop", {0: "element", 1: "tail"}.get(at, "?index"))
                     if p in leaf_fns:
                         return ("value", UNK)
